@@ -429,6 +429,11 @@ func execute(w *world.World, p *world.PKI, sc scen) (res result) {
 			d.deliver(target, x.Data, inStale, "stale")
 			d.deliver(target, resequence(x.Data, 1000+16*uint64(i)), inStale, "stale-reseq")
 			res.FolDelivered += 2
+			if e := emptyFragments(x.Data, 1500+16*uint64(i)); e != nil {
+				// the same old messages repeated by a peer that sends zero-length fragments
+				d.deliver(target, e, inStale, "stale-empty-fragment")
+				res.FolDelivered++
+			}
 		}
 	case folGarbage:
 		for _, g := range garbageKinds(old) {
@@ -460,6 +465,11 @@ func execute(w *world.World, p *world.PKI, sc scen) (res result) {
 				// three out of four stale datagrams carry fresh record sequence numbers (they pass the replay
 				// filter and reach the handshake layer), the fourth is a byte-identical replay
 				data = resequence(data, 2000+16*uint64(i))
+				if i%4 == 1 {
+					if e := emptyFragments(pool[i%len(pool)], 2000+16*uint64(i)); e != nil {
+						data = e // the old message as a zero-length fragment
+					}
+				}
 			}
 			d.deliver(target, data, class, "storm")
 			res.FolDelivered++
